@@ -16,6 +16,7 @@ import (
 
 	"github.com/criyle/go-sandbox/container"
 	"github.com/criyle/go-sandbox/pkg/forkexec"
+	"github.com/criyle/go-sandbox/pkg/mount"
 	"github.com/criyle/go-sandbox/ptracer"
 	"github.com/criyle/go-sandbox/runner"
 	"github.com/criyle/go-sandbox/zverif/vcore"
@@ -330,7 +331,17 @@ func c12KRun(c *vcore.Ctx) *vcore.Violation {
 				shape = "tree_exit"
 			} else {
 				c.Event(shape)
+				// three places where a Build can fail: on the host before the configuration is sent, and inside
+				// the container while it applies the configuration (missing root; bind mount of a missing source)
 				b := container.Builder{Root: filepath.Join(c.Dir, "no-such-root-dir"), TmpRoot: "tmp-*"}
+				switch src.Int(3, "build_failure") {
+				case 1:
+					b = container.Builder{Root: filepath.Join(c.Dir, "no-such-root-dir")}
+				case 2:
+					okRoot, _ := os.MkdirTemp(c.Dir, "c12root")
+					defer os.Remove(okRoot)
+					b = container.Builder{Root: okRoot, Mounts: mount.NewBuilder().WithBind("/nonexistent-verif-source", "m", true).Mounts}
+				}
 				env, err := b.Build()
 				c.Logf("run %d build_fails: Build -> %v", i, err)
 				if err == nil {
